@@ -9,7 +9,8 @@ RULE = ("bench texts generated from a dialect model: INPUT/OUTPUT lines, gates w
         "DFF fed by a later DFF), every line order sampled, outputs before definitions, whitespace variants (blanks "
         "around = ( , ) and before `(`), comment lines; every valuation of inputs and flop outputs compared net by net; "
         "round trip writer->reader for every 2-input <=2-gate circuit (sampled) and random blackbox-free circuits "
-        "with >=1 input, with and without constants; non-trivial = text has >=2 gate/DFF lines")
+        "with >=1 input, with and without constants; non-trivial = text has >=2 gate/DFF lines"
+        "; plus: operand lists with 2-5 repeats in both spellings of every parity / and / nor keyword")
 BOUND = "<= 4 inputs, <= 7 gate lines, <= 3 DFFs (<= 8 free signals); 4/16 hash seeds"
 KW = ["BUF", "BUFF", "NOT", "AND", "NAND", "OR", "NOR", "XOR", "XNOR"]
 
